@@ -7,7 +7,6 @@ package grpcutil
 import (
 	"context"
 	"encoding/json"
-	"errors"
 	"fmt"
 	"math/rand/v2"
 	"net/http"
@@ -20,7 +19,6 @@ import (
 	conformancev1 "connectrpc.com/conformance/internal/gen/proto/go/connectrpc/conformance/v1"
 	"connectrpc.com/conformance/internal/verifutil"
 	"google.golang.org/grpc/metadata"
-	"google.golang.org/grpc/status"
 	"google.golang.org/protobuf/encoding/protojson"
 	"google.golang.org/protobuf/encoding/protowire"
 	"google.golang.org/protobuf/proto"
@@ -156,18 +154,17 @@ func (rv *c18Rev) abstract(m map[string][]string, prefix string, prune bool) []c
 }
 
 type c18RecHdr struct {
-	T     string     `json:"t"`
-	Op    string     `json:"op"`
-	H     []c18Entry `json:"h"`
-	Pre   []c18Entry `json:"pre"`
-	Obs   []c18Entry `json:"obs"`
-	After []c18Entry `json:"after"`
+	T   string     `json:"t"`
+	Op  string     `json:"op"`
+	H   []c18Entry `json:"h"`
+	Pre []c18Entry `json:"pre"`
+	Obs []c18Entry `json:"obs"`
 }
 
 func c18RecordHdr(r *rand.Rand) c18RecHdr {
 	ops := []string{"h2md", "out", "md2h", "addh", "addt", "map2h", "rt"}
 	op := ops[r.IntN(len(ops))]
-	rec := c18RecHdr{T: "hdr", Op: op, Pre: []c18Entry{}, After: []c18Entry{}}
+	rec := c18RecHdr{T: "hdr", Op: op, Pre: []c18Entry{}}
 	switch op {
 	case "h2md":
 		rec.H = c18RandList(r, "lum", false, 8)
@@ -189,10 +186,8 @@ func c18RecordHdr(r *rand.Rand) c18RecHdr {
 	case "md2h":
 		rec.H = c18RandList(r, "l", true, 8)
 		rv := c18NewRev(rec.H)
-		md := metadata.MD(c18Map(rec.H, "", false))
-		res, _ := c18HdrListMap(ConvertMetadataToProtoHeader(md))
+		res, _ := c18HdrListMap(ConvertMetadataToProtoHeader(metadata.MD(c18Map(rec.H, "", false))))
 		rec.Obs = rv.abstract(res, "", false)
-		rec.After = rv.abstract(md, "", false)
 	case "addh", "addt":
 		rec.H = c18RandList(r, "lum", false, 8)
 		prefix := ""
@@ -536,8 +531,6 @@ func c18RecordCodec(r *rand.Rand) (c18RecCodec, bool) {
 			withUnk.ProtoReflect().SetUnknown(c18UnknownField(r))
 		case "nested":
 			var n2 []protoreflect.Message
-			r2 := rand.New(rand.NewPCG(1, 1))
-			_ = r2
 			c18Collect(withUnk.ProtoReflect(), &n2, true)
 			if len(n2) == 0 {
 				return rec, false
@@ -634,6 +627,3 @@ func TestVerifC18Record(t *testing.T) {
 		}
 	}
 }
-
-var _ = errors.New
-var _ = status.New
